@@ -526,10 +526,94 @@ class PathController:
         self.live_points = None
         self.filter_log = []
         self.known = {}
+        self.ivl = {}               # variable -> [lo, lo_strict, hi, hi_strict] implied by the single-variable linear conjuncts of the path condition
         for a in self.assumptions:
             self._assert(a)
 
+    # ---- interval fast path: a condition a*x + b REL 0 that the bounds already implied by the path condition make impossible
+    # is infeasible without a solver call (the converse is never concluded from intervals)
+    @staticmethod
+    def _affine1(n):
+        """n (sort R) as (var or None, a, b) meaning a*var + b, or None"""
+        op = n.op
+        if op == 'const': return (None, 0, n.args[0])
+        if op == 'var': return (n.args[0], 1, 0)
+        if op in ('add', 'sub'):
+            l = PathController._affine1(n.args[0]); r = PathController._affine1(n.args[1])
+            if l is None or r is None: return None
+            sg = 1 if op == 'add' else -1
+            if l[0] is not None and r[0] is not None and l[0] != r[0]: return None
+            v = l[0] if l[0] is not None else r[0]
+            return (v, l[1] + sg * r[1], l[2] + sg * r[2])
+        if op == 'neg':
+            l = PathController._affine1(n.args[0])
+            return None if l is None else (l[0], -l[1], -l[2])
+        if op == 'mul':
+            l = PathController._affine1(n.args[0]); r = PathController._affine1(n.args[1])
+            if l is None or r is None: return None
+            if l[0] is None: return (r[0], l[2] * r[1], l[2] * r[2])
+            if r[0] is None: return (l[0], r[2] * l[1], r[2] * l[2])
+            return None
+        return None
+
+    def _lin1(self, cond):
+        """cond as (var, rel, c) meaning var REL c with REL in lt/le/gt/ge/eq/ne, or None"""
+        if cond.op not in ('lt', 'le', 'gt', 'ge', 'eq', 'ne') or cond.args[0].sort != 'R': return None
+        l = self._affine1(cond.args[0]); r = self._affine1(cond.args[1])
+        if l is None or r is None: return None
+        if l[0] is not None and r[0] is not None and l[0] != r[0]: return None
+        v = l[0] if l[0] is not None else r[0]
+        a = l[1] - r[1]; b = l[2] - r[2]
+        if v is None or a == 0: return None
+        c = Fraction(-b) / Fraction(a)
+        rel = cond.op
+        if a < 0: rel = {'lt': 'gt', 'le': 'ge', 'gt': 'lt', 'ge': 'le'}.get(rel, rel)
+        return v, rel, c
+
+    def _ivl_update(self, cond):
+        if cond.op == 'and':
+            for a in cond.args: self._ivl_update(a)
+            return
+        if cond.op == 'not' and cond.args[0].op in ('lt', 'le', 'gt', 'ge', 'eq', 'ne'):
+            inner = cond.args[0]
+            t = self._lin1(inner)
+            if t is None: return
+            v, rel, c = t
+            rel = {'lt': 'ge', 'le': 'gt', 'gt': 'le', 'ge': 'lt', 'eq': 'ne', 'ne': 'eq'}[rel]
+        else:
+            t = self._lin1(cond)
+            if t is None: return
+            v, rel, c = t
+        b = self.ivl.setdefault(v, [None, False, None, False])
+        if rel in ('gt', 'ge', 'eq'):
+            st = rel == 'gt'
+            if b[0] is None or c > b[0] or (c == b[0] and st): b[0] = c; b[1] = st
+        if rel in ('lt', 'le', 'eq'):
+            st = rel == 'lt'
+            if b[2] is None or c < b[2] or (c == b[2] and st): b[2] = c; b[3] = st
+
+    def _ivl_impossible(self, cond):
+        """True if the single-variable linear condition cannot hold within the recorded bounds of its variable"""
+        neg = False
+        if cond.op == 'not':
+            cond = cond.args[0]; neg = True
+        t = self._lin1(cond)
+        if t is None: return False
+        v, rel, c = t
+        if neg: rel = {'lt': 'ge', 'le': 'gt', 'gt': 'le', 'ge': 'lt', 'eq': 'ne', 'ne': 'eq'}[rel]
+        b = self.ivl.get(v)
+        if b is None: return False
+        lo, ls, hi, hs = b
+        if rel == 'lt': return lo is not None and lo >= c
+        if rel == 'le': return lo is not None and (lo > c or (lo == c and ls))
+        if rel == 'gt': return hi is not None and hi <= c
+        if rel == 'ge': return hi is not None and (hi < c or (hi == c and hs))
+        if rel == 'eq': return (lo is not None and (lo > c or (lo == c and ls))) or (hi is not None and (hi < c or (hi == c and hs)))
+        if rel == 'ne': return lo is not None and hi is not None and lo == hi == c and not ls and not hs
+        return False
+
     def _assert(self, node):
+        self._ivl_update(node)
         e, deps = self.z.tr(node)
         for d in deps:
             if d not in self._asserted_defs:
@@ -653,8 +737,15 @@ class PathController:
                     self._gp_seen.add(side.id)
                     self.generic_assumed.append(S.show(side, 3))
                 return want
-        rt = self._check(cond)
-        rf = self._check(S.bnot(cond))
+        if self._ivl_impossible(cond):
+            rt = z3.unsat; rf = z3.sat
+            self.stats['interval'] = self.stats.get('interval', 0) + 1
+        elif self._ivl_impossible(S.bnot(cond)):
+            rt = z3.sat; rf = z3.unsat
+            self.stats['interval'] = self.stats.get('interval', 0) + 1
+        else:
+            rt = self._check(cond)
+            rf = self._check(S.bnot(cond))
         if rt == z3.unknown or rf == z3.unknown:
             self.unknown_branches += 1
         ft = rt != z3.unsat
@@ -763,6 +854,21 @@ class PathController:
         base = self._strip_linear(v)
         if base is not v and base.sort == 'I' and base.id not in self.known:
             self.concretize(base, it)       # fixes the underlying quantity first; v then has a single value
+        elif base is v and v.op in ('iadd', 'isub', 'imul'):
+            # a combination of several symbolic integers (e.g. a linear voxel index from three per-axis indices): fix each
+            # constituent first, every one of them is a much simpler query than the combination
+            leaves = []
+            def walk(n, depth=0):
+                if n.sort != 'I' or n.op == 'iconst' or depth > 12: return
+                if n.op in ('iadd', 'isub', 'imul', 'irew', 'imod'):
+                    for a in n.args:
+                        if type(a) is S.Node: walk(a, depth + 1)
+                else:
+                    if n not in leaves: leaves.append(n)
+            walk(v)
+            if len(leaves) > 1:
+                for lf in leaves:
+                    if lf.id not in self.known: self.concretize(lf, it)
         r = self._concretize(v, it)
         self.known[v.id] = r
         return r
@@ -776,7 +882,7 @@ class PathController:
             return d.value
         e, deps = self.z.tr(v)
         s = self._solver
-        vals = []
+        vals = []; wit = []
         s.push()
         for d in deps:
             if d not in self._asserted_defs:
@@ -788,11 +894,17 @@ class PathController:
             self.z.queries += 1
             if r != z3.sat:
                 if r == z3.unknown:
-                    s.pop()
-                    raise Unsupported('cannot enumerate values of a symbolic integer (solver: unknown)')
+                    # the incremental solver gives up on mixed integer/real constraints more easily than a fresh one
+                    vals = self._enumerate_fresh(v)
+                    if vals is None:
+                        s.pop()
+                        raise Unsupported('cannot enumerate values of a symbolic integer (solver: unknown)')
                 break
             val = s.model().eval(e, model_completion=True).as_long()
             vals.append(val)
+            if len(wit) < 4:
+                try: wit.append((val, _model_of(s)))
+                except Exception: pass
             s.add(e != val)
         s.pop()
         if not vals:
@@ -801,6 +913,8 @@ class PathController:
             import os
             if os.environ.get('IRSYM_DEBUG'):
                 import traceback; traceback.print_stack(limit=8); print('value:', S.show(v, 5))
+            # inputs under which the integer takes different values (used by checks to pick concrete replays)
+            self.unbounded = {'value': S.show(v, 4), 'where': it.where(), 'witnesses': wit}
             raise Unsupported('symbolic integer has more than %d feasible values at %s' % (self.concretize_limit, it.where()))
         vals.sort()
         self.pos += 1
@@ -810,6 +924,29 @@ class PathController:
         self.trace.append(d)
         self._assert(S.cmp('eq', v, S.iconst(vals[0], v.width)))
         return vals[0]
+
+    def _enumerate_fresh(self, v):
+        s2 = z3.Solver()
+        s2.set('timeout', max(self.branch_timeout_ms, 20000))
+        deps = set()
+        for n in self.pc:
+            e_, d_ = self.z.trs(n)
+            s2.add(e_); deps |= d_
+        e, d_ = self.z.trs(v); deps |= d_
+        for k in sorted(deps):
+            s2.add(self.z.sdef(k))
+        vals = []
+        while len(vals) <= self.concretize_limit:
+            t = time.time()
+            r = s2.check()
+            self.z.solver_time += time.time() - t
+            self.z.queries += 1
+            if r == z3.unknown: return None
+            if r != z3.sat: break
+            val = s2.model().eval(e, model_completion=True).as_long()
+            vals.append(val)
+            s2.add(e != val)
+        return vals
 
     # monitors ---------------------------------------------------------------------
     def note_division(self, b, it):
